@@ -401,16 +401,19 @@ Definition none (b : buf) (c : pctx) (i : Z) : res unit :=
   match null b i with None => Oob | Some p =>
     if p =? i then fail b c i JE_union_none_not_null tt else Ok c p tt end.
 
-(* ------------------------------------------------------------------ integer  (json_parser.c:754)
-   Owned by C19: the value is carried only because the wrap test decides where scanning stops. *)
+(* ------------------------------------------------------------------ integer  (flatcc_json_parser_integer)
+   The decimal accumulation with the overflow test of /repo HEAD (fix 13090de):
+       x0 = *buf - '0';  if (x > (UINT64_MAX - x0) / 10) error;  x = x * 10 + x0;
+   (the pinned snapshot compared `x0 > x` after the wrapped multiplication and missed most overflows).
+   The numeric semantics are C19's (coq/Num/NumModel.v [ovf_fixed]); here the value only decides where scanning stops. *)
 Fixpoint integer_digits (fuel : nat) (b : buf) (i : Z) (x : Z) : option (option (Z * Z + Z)) :=
-  (* Some (Some (inl (p, x))): stopped at p with value x; inr p: wrap detected at p *)
+  (* Some (Some (inl (p, x))): stopped at p with value x; inr p: overflow detected at p *)
   match fuel with O => Some None | S f =>
     if i =? blen b then Some (Some (inl (i, x))) else
     match get b i with None => None | Some d =>
       if is_digit d then
-        let x' := u64 (x * 10 + (d - 48)) in
-        if x' <? x then Some (Some (inr i)) else integer_digits f b (i + 1) x'
+        let x0 := d - 48 in
+        if x >? (U64_MAX - x0) / 10 then Some (Some (inr i)) else integer_digits f b (i + 1) (u64 (x * 10 + x0))
       else Some (Some (inl (i, x)))
     end
   end.
